@@ -80,7 +80,7 @@ func solveAll(d *Driver, fvcs []*FuncVC, dir string, timeoutMs int, keepText boo
 	sem := make(chan struct{}, 8)
 	// first pass: one incremental solver run per function
 	settled := map[*Obl]SolveResult{}
-	batchMs := 300
+	batchMs := 300 // vacuity covers; proof obligations get four times as long (batch.go)
 	thorough := timeoutMs > 30000
 	if thorough {
 		batchMs = 1500
@@ -159,7 +159,7 @@ func solveAll(d *Driver, fvcs []*FuncVC, dir string, timeoutMs int, keepText boo
 				if o.Expect != "sat" && r.Status == "unknown" && o.Kind != "guard-decl" && o.Kind != "guard-confined" && o.Kind != "guard-immutable" && o.Kind != "guard-atomic" {
 					// undecided within the budget: one more attempt with twice the time before it is reported, so that a
 					// loaded machine does not turn a slow proof into an alarm
-					r2 := runQuery(dir, o.Name+"_retry", txt, 2*tmo)
+					r2 := runQuery(dir, o.Name+"_retry", txt, 3*tmo)
 					if r2.Status != "unknown" {
 						r = r2
 					}
